@@ -12,6 +12,7 @@ else
   git reset -q   # unstage, keep working tree changes
 fi
 cd /verif
+export VERIF_EVIDENCE_DIR=/verif/build/mutant_evidence
 for pid in "$@"; do
   out=$(./check "$pid" --tier "${TIER:-quick}" 2>&1); rc=$?
   echo "== $pid rc=$rc $(echo "$out" | grep -c '^VIOLATION') violation(s)"
